@@ -85,7 +85,7 @@ MANIFEST_META = {
         note='the universal claim "returns a complete response without raising for any request whatsoever" (whole-program '
              'exception freedom across dynamic dispatch, templates, PIL decoders), image decodability, XML well-formedness of '
              'rendered templates are NOT covered; repaired through this check: S15/S24 (in-image error Content-type), S29 (control characters '
-             'in XML error documents; xml_text is bounded), plus contracts for DemoServer templates (taint propagation) and Request.host '
+             'in XML error documents; xml_text: that the result is the whole, uncut result of html.escape(<cleaned msg>) is proved, the character-level statement is bounded and html.escape / re.sub are trusted), plus contracts for DemoServer templates (taint propagation) and Request.host '
              '(total for every Host header); S37: SourceError texts (copied into every error document) carried the upstream URL / mapserver '
              'paths - now constant, under contract for WMSClient._check_resp and CGIClient.open'),
     'C09': dict(
@@ -139,7 +139,7 @@ MANIFEST_META = {
              'the index whose size field matches) is preserved by _store_tile and index updates, hence after any history '
              '(induction over operations); defragmentation copies, for each of the 128 rows, all 128 addresses (0..127, y) from '
              'the old bundle and stores those found into the new one; v1 bulk load visits every tile (no early return).',
-        note='file model trusted; v1 index/data functions are under contract (C05) but the v1 invariant is not stated as one '
+        note='bounded (never counted as proved): the property statement itself for defrag_compact_cache on real v1/v2 caches, 40 generated store/overwrite/remove histories per run; file model trusted; v1 index/data functions are under contract (C05) but the v1 invariant is not stated as one '
              'predicate; size() accounting is outside; the swap step (old files removed, temporary bundle renamed into the old '
              'name, only when tiles were copied), the identification of old/new bundle and the glob pattern are under contract; '
              'the defrag loop invariant is per-row (rows < y copied); S44: the scratch bundle was '
